@@ -29,7 +29,7 @@ all in `nm_cases` / `minimize_cases`.
 
 Theorems:
   (a) `nm_terminates_shape`         at most `max_iters` iterations; the simplex always has n+1 vertices of dimension n
-  (b) `step_best_monotone`          the reported best cost never increases from one iteration to the next
+  (b) `step_best_monotone`, `nm_best_monotone`   the reported best cost never increases from one iteration to the next
       `nm_result_spec`              the returned parameter was evaluated, its cost is ≤ the cost of every vertex of
                                     the initial simplex
   (c) `nm_no_panic_of_total_cost`, `nm_panic_only_cost`, `fit_panic_iff`, `fit_panic_iff_full`,
@@ -139,6 +139,16 @@ theorem loop_cases (L : OrdLaws o Num) (hn : 0 < n) (hc : CostSpec cost Num n cs
       · rw [h1]
         exact Or.inr ⟨rfl, hx⟩
 
+/-- **(b) `nm_best_monotone`.** Along the whole executor loop (any number of remaining iterations) the
+reported best cost at the end is never above the one at the start; `step_best_monotone` is the
+single-iteration version, and the invariant is preserved. -/
+theorem nm_best_monotone (L : OrdLaws o Num) (hn : 0 < n) (hc : CostSpec cost Num n cs) (tol : α) (fuel : Nat)
+    (st st' : State α) (hinv : Inv cost Num n st) (h : loop o cost tol fuel st = .ok st') :
+    o.lt st.bestCost st'.bestCost = false ∧ Inv cost Num n st' ∧ st'.trace.length ≤ st.trace.length + fuel := by
+  rcases loop_cases L hn hc tol fuel st hinv with ⟨st'', h1, h2, h3, h4⟩ | ⟨h1, _⟩
+  · rw [h1] at h; cases h; exact ⟨h3, h2, h4⟩
+  · rw [h1] at h; cases h
+
 theorem evalAll_cases (hc : CostSpec cost Num n cs) (ps : List (List α)) (hps : ∀ p ∈ ps, p.length = n) :
     (∃ vs, evalAll cost ps = .ok vs ∧ vs.map Prod.fst = ps ∧ Evaluated cost Num vs) ∨
     (evalAll cost ps = .panic cs ∧ ∃ x, x.length = n ∧ cost x = .panic cs) := by
@@ -244,6 +254,13 @@ theorem nm_terminates_shape (L : OrdLaws o Num) (hn : 0 < n) (hc : CostSpec cost
   rcases nm_cases L hn hc tol htol N simplex hlen hdim with ⟨st', h1, hinv, hl, _⟩ | ⟨h1, _⟩
   · rw [h1] at h; cases h; exact ⟨hl, hinv.shape.1, hinv.shape.2⟩
   · rw [h1] at h; cases h
+
+/-- **(a) `nm_terminates`** (name used in the task text): see `nm_terminates_shape`. -/
+theorem nm_terminates (L : OrdLaws o Num) (hn : 0 < n) (hc : CostSpec cost Num n cs) (tol : α)
+    (htol : o.lt tol o.zero = false) (N : Nat) (simplex : List (List α))
+    (hlen : simplex.length = n + 1) (hdim : ∀ p ∈ simplex, p.length = n) (st : State α)
+    (h : run o cost tol N simplex = .ok st) : st.trace.length ≤ N :=
+  (nm_terminates_shape L hn hc tol htol N simplex hlen hdim st h).1
 
 /-- `… .state.best_param.unwrap()` on top of `nm_cases`. -/
 theorem minimize_cases (L : OrdLaws o Num) (hn : 0 < n) (hc : CostSpec cost Num n cs) (tol : α)
